@@ -36,7 +36,7 @@ fn v_leaves() -> Vec<VOperand> {
     ]
 }
 
-fn v_classes(depth: usize, thorough: bool) -> Vec<VClass> {
+pub fn v_classes(depth: usize, thorough: bool) -> Vec<VClass> {
     let leaves = v_leaves();
     let mut operand_pool: Vec<VOperand> = leaves.clone();
     let mut result: Vec<VClass> = Vec::new();
@@ -89,7 +89,7 @@ fn v_classes(depth: usize, thorough: bool) -> Vec<VClass> {
     result
 }
 
-fn legacy_classes() -> Vec<Node> {
+pub fn legacy_classes() -> Vec<Node> {
     let items: Vec<ClassItem> = vec![
         ClassItem::Single(ch('a')),
         ClassItem::Single(ch('-')),
@@ -117,7 +117,7 @@ fn legacy_classes() -> Vec<Node> {
     out
 }
 
-fn universe() -> Vec<u32> {
+pub fn universe() -> Vec<u32> {
     vec![ch('a'), ch('b'), ch('d'), ch('k'), ch('K'), 0x212A, ch('s'), 0x17F, ch('&'), ch('-'), ch('1'), ch('_'), ch('x'), 8, ch('^'), ch('A'), ch(' ')]
 }
 
